@@ -365,7 +365,17 @@ func isMuArg(w *World, args []ssa.Value) bool {
 
 func c06Globals(w *World, r *Report) { c06GlobalsRule(w, r, "R06.3") }
 
-func c06GlobalsRule(w *World, r *Report, rule string) {
+var c06XPathKeys = []string{"xpath", "xpath/xutils", "xpath/grammars/expr", "xpath/grammars/leafref", "xpath/grammars/path_eval"}
+
+func c06GlobalsRule(w *World, r *Report, rule string) { c06GlobalsIn(w, r, rule, c06XPathKeys) }
+
+// c06GlobalsReviewed: package-level variables whose accesses were read and accepted, by short name.
+var c06GlobalsReviewed = map[string]string{
+	"compile.compilerDebugEnabled": "debug switch: written only by the exported Enable/DisableCompilerDebug setters (not part of compiling), read to decide whether to print; it never influences the compiled schema",
+	"parse.BuiltinTenv":            "filled in init only; OpenScope hands the pointer to NewTEnv as the *parent* of a fresh environment (an escape, not a write): TEnv.Put writes the receiver's own map, never the parent's",
+}
+
+func c06GlobalsIn(w *World, r *Report, rule string, keys []string) {
 	eff := NewEffects(w)
 	type access struct {
 		fn    *ssa.Function
@@ -373,7 +383,6 @@ func c06GlobalsRule(w *World, r *Report, rule string) {
 		pos   token.Pos
 	}
 	acc := map[*ssa.Global][]access{}
-	keys := []string{"xpath", "xpath/xutils", "xpath/grammars/expr", "xpath/grammars/leafref", "xpath/grammars/path_eval"}
 	inScope := map[*ssa.Package]bool{}
 	for _, k := range keys {
 		inScope[w.SSAPkg(k)] = true
@@ -509,6 +518,10 @@ func c06GlobalsRule(w *World, r *Report, rule string) {
 		}
 		if len(writesOutsideInit) == 0 {
 			nRO++
+			continue
+		}
+		if why, ok := c06GlobalsReviewed[name]; ok {
+			r.Reviewed(rule, name, g.Pos(), why)
 			continue
 		}
 		// written after init: lock discipline
